@@ -122,12 +122,51 @@ enum Item {
 #[derive(Clone, Debug)]
 enum Pred { VPos, WNotNull, KNotA, BTrue }
 
+/// HAVING: a boolean combination of comparisons of aggregates with INT constants
+#[derive(Clone, Debug)]
+enum Having {
+    Cmp(AggK, &'static str, i64),
+    And(Box<Having>, Box<Having>),
+    Or(Box<Having>, Box<Having>),
+    Not(Box<Having>),
+}
+
+impl Having {
+    fn sql(&self) -> String {
+        match self {
+            Having::Cmp(a, op, c) => format!("{} {} {}", a.sql(), op, c),
+            Having::And(l, r) => format!("({} AND {})", l.sql(), r.sql()),
+            Having::Or(l, r) => format!("({} OR {})", l.sql(), r.sql()),
+            Having::Not(x) => format!("(NOT {})", x.sql()),
+        }
+    }
+    fn aggs<'a>(&'a self, out: &mut Vec<&'a AggK>) {
+        match self {
+            Having::Cmp(a, _, _) => out.push(a),
+            Having::And(l, r) | Having::Or(l, r) => { l.aggs(out); r.aggs(out); }
+            Having::Not(x) => x.aggs(out),
+        }
+    }
+    /// the condition on one group: a comparison involving NULL does not hold
+    fn holds(&self, g: &[&Vec<Value>]) -> bool {
+        match self {
+            Having::Cmp(a, op, c) => match ref_aggregate(a, g) {
+                Value::Int(x) => match *op { ">" => x > *c, ">=" => x >= *c, "<" => x < *c, "<=" => x <= *c, "=" => x == *c, _ => x != *c },
+                _ => false,
+            },
+            Having::And(l, r) => l.holds(g) && r.holds(g),
+            Having::Or(l, r) => l.holds(g) || r.holds(g),
+            Having::Not(x) => !x.holds(g),
+        }
+    }
+}
+
 #[derive(Clone, Debug)]
 struct TypedQuery {
     group: Vec<usize>,
     items: Vec<Item>,
     wher: Option<Pred>,
-    having: Option<(AggK, &'static str, i64)>,
+    having: Option<Having>,
 }
 
 impl TypedQuery {
@@ -144,8 +183,8 @@ impl TypedQuery {
         if !self.group.is_empty() {
             q.push_str(&format!(" GROUP BY {}", self.group.iter().map(|c| COLS[*c]).collect::<Vec<_>>().join(", ")));
         }
-        if let Some((a, op, c)) = &self.having {
-            q.push_str(&format!(" HAVING {} {} {}", a.sql(), op, c));
+        if let Some(h) = &self.having {
+            q.push_str(&format!(" HAVING {}", h.sql()));
         }
         q
     }
@@ -181,13 +220,27 @@ fn gen_typed_query(rng: &mut Rng) -> TypedQuery {
         }
     }
     let wher = if rng.chance(1, 3) { Some(rng.pick(&[Pred::VPos, Pred::WNotNull, Pred::KNotA, Pred::BTrue]).clone()) } else { None };
-    let having = if rng.chance(2, 5) {
-        // an aggregate of the select list, or a hidden one that appears only in HAVING
+    let having = if rng.chance(1, 2) {
+        // aggregates of the select list, or hidden ones that appear only in HAVING; the same aggregate is deliberately
+        // used more than once (range conditions, alternatives), thresholds lie inside the data range
         let from_list: Vec<AggK> = items.iter().filter_map(|it| match it { Item::Agg(a, _) if a.int_valued() => Some(a.clone()), _ => None }).collect();
-        let a = if !from_list.is_empty() && rng.chance(1, 2) { rng.pick(&from_list).clone() } else {
-            rng.pick(&[AggK::CountStar, AggK::Count(V), AggK::Count(S), AggK::Sum(V), AggK::Max(W), AggK::Min(V), AggK::CountDistinct(K)]).clone()
+        let pick = |rng: &mut Rng| -> AggK {
+            if !from_list.is_empty() && rng.chance(1, 2) { rng.pick(&from_list).clone() } else {
+                rng.pick(&[AggK::CountStar, AggK::CountStar, AggK::Count(V), AggK::Count(S), AggK::Sum(V), AggK::Sum(W), AggK::Max(W), AggK::Min(V), AggK::CountDistinct(K), AggK::Avg(V)]).clone()
+            }
         };
-        Some((a, *rng.pick(&[">", ">=", "<", "=", "!="]), *rng.pick(&[0i64, 1, 2, 5])))
+        let cmp = |rng: &mut Rng, a: &AggK| Having::Cmp(a.clone(), *rng.pick(&[">", ">=", "<", "<=", "=", "!="]), *rng.pick(&[0i64, 1, 2, 3, 5, 10]));
+        let a = pick(rng);
+        let b = pick(rng);
+        Some(match rng.below(8) {
+            0 | 1 => cmp(rng, &a),
+            2 => { let lo = rng.below(3) as i64; Having::And(Box::new(Having::Cmp(a.clone(), ">=", lo)), Box::new(Having::Cmp(a.clone(), "<=", lo + 1 + rng.below(3) as i64))) }
+            3 => Having::And(Box::new(cmp(rng, &a)), Box::new(cmp(rng, &b))),
+            4 => Having::Or(Box::new(cmp(rng, &a)), Box::new(cmp(rng, &a))),
+            5 => Having::Not(Box::new(cmp(rng, &a))),
+            6 => Having::And(Box::new(Having::And(Box::new(cmp(rng, &a)), Box::new(cmp(rng, &a)))), Box::new(cmp(rng, &b))),
+            _ => Having::And(Box::new(Having::Or(Box::new(cmp(rng, &a)), Box::new(cmp(rng, &b)))), Box::new(cmp(rng, &a))),
+        })
     } else { None };
     TypedQuery { group, items, wher, having }
 }
@@ -347,17 +400,13 @@ fn reference(q: &TypedQuery, admitted: &[Vec<Value>]) -> RefOut {
     keys.sort_by(|a, b| cmp_key(a, b));
     let mut out = RefOut { rows: Vec::new(), d10: false, d15: false };
     let mut all_aggs: Vec<&AggK> = q.items.iter().filter_map(|it| match it { Item::Agg(a, _) => Some(a), _ => None }).collect();
-    if let Some((a, _, _)) = &q.having { all_aggs.push(a); }
+    if let Some(h) = &q.having { h.aggs(&mut all_aggs); }
     for k in &keys {
         let g: Vec<&Vec<Value>> = passing.iter().filter(|r| cmp_key(&key_of(r), k) == Ordering::Equal).cloned().collect();
         if !all_aggs.iter().any(|a| creates_entry(a, &g)) { out.d10 = true; }
         for a in &all_aggs { if let AggK::ArrayAgg(c) = a { if g[0][*c] == Value::Null { out.d15 = true; } } }
-        if let Some((a, op, c)) = &q.having {
-            let keep = match ref_aggregate(a, &g) {
-                Value::Int(x) => match *op { ">" => x > *c, ">=" => x >= *c, "<" => x < *c, "=" => x == *c, _ => x != *c },
-                _ => false, // a comparison involving NULL does not hold
-            };
-            if !keep { continue; }
+        if let Some(h) = &q.having {
+            if !h.holds(&g) { continue; }
         }
         out.rows.push(q.items.iter().map(|it| match it {
             Item::Key(i) => k[*i].clone(),
